@@ -67,7 +67,8 @@ impl<T> EventSource for Park<'_, T> {
         #[cfg(may_verif)]
         crate::verif::label("spsc.subscribe.stored", 0);
         // re-check the state, only clear once after resume
-        if !self.queue.queue.is_empty() {
+        // the sender may also have gone in between: its drop found nobody to wake
+        if !self.queue.queue.is_empty() || self.queue.channels.load(Ordering::Relaxed) == 0 {
             if let Some(co) = wait_co.take() {
                 run_coroutine(co.into_coroutine());
             }
